@@ -135,7 +135,8 @@ def run_plan(w, cfg, faults, ref, tape, gens, then=None):
 
     def V(oracle, kind, detail=None):
         viol.append({"property": PID, "oracle": oracle, "kind": kind, "detail": detail,
-                     "signature": {"exec": cfg["exec"]}})
+                     "signature": {"exec": cfg["exec"], "async": cfg["exec"].startswith("async"),
+                                   "exc_kinds": sorted({f["exc"] for f in faults})}})
 
     kind = cfg["exec"]
     inproc = kind in ("call", "run", "map-seq", "map-thread", "async-thread")
@@ -195,6 +196,7 @@ def run_plan(w, cfg, faults, ref, tape, gens, then=None):
                     post()
 
                 def post():
+                    nonlocal err
                     fired = [f for f in fobjs if f.fired]
                     info["fired"] = [(f.fn, f.exc_kind) for f in fired]
                     raised_calls = [c for c in sim.calls if c.raised]
@@ -209,8 +211,19 @@ def run_plan(w, cfg, faults, ref, tape, gens, then=None):
                     if outcome == "ok":
                         V("surface", "failure-swallowed", {"fired": info["fired"]})
                         return
-                    # 1. same type and args
+                    # 1. same type and args.  Narrow, stated relaxation: asyncio cannot carry a StopIteration in a
+                    # Future at all, so for the async entry point a RuntimeError chained (__cause__) to the planned
+                    # StopIteration is the faithful outcome (PEP 479 style); it is unwrapped for the remaining checks.
                     ids = [_exc_id(make_exc(f.exc_kind)) for f in fired]
+                    if kind.startswith("async") and isinstance(err, RuntimeError) and isinstance(err.__cause__, StopIteration) \
+                            and _exc_id(err.__cause__) in ids:
+                        notes = list(getattr(err, "__notes__", []) or []) + list(getattr(err.__cause__, "__notes__", []) or [])
+                        err = err.__cause__
+                        try:
+                            err.__notes__ = notes
+                        except Exception:  # noqa: BLE001
+                            pass
+                        info["probes"]["async_stopiteration_rewrapped"] = 1
                     if _exc_id(err) not in ids:
                         V("surface", "exception-changed", {"got": repr(_exc_id(err)), "planned": repr(ids)})
                         return
@@ -269,6 +282,10 @@ def run_plan(w, cfg, faults, ref, tape, gens, then=None):
                         return
                     info["probes"]["second_failure_on_same_pipeline"] = 1
                     planned2 = _exc_id(make_exc(f2.exc_kind))
+                    if kind.startswith("async") and isinstance(err2, RuntimeError) and isinstance(err2.__cause__, StopIteration):
+                        n2 = list(getattr(err2, "__notes__", []) or []) + list(getattr(err2.__cause__, "__notes__", []) or [])
+                        err2 = err2.__cause__
+                        err2.__notes__ = n2
                     if err2 is None or _exc_id(err2) != planned2:
                         V("surface", "second-failure-exception-changed", {"got": repr(_exc_id(err2)) if err2 else None, "planned": repr(planned2)})
                         return
